@@ -38,7 +38,7 @@ const c01SelfSigIsViolation = false
 type c01CertSpec struct {
 	Ext     string `json:"ext"`      // present | absent | dup-X-then-valid | dup-valid-then-X  (DER level) | dupstruct-... (parsed struct level, direct calls only)
 	ExtKey  string `json:"ext_key"`  // owner | other | garbage
-	Sig     string `json:"sig"`      // valid | other-certkey | other-signer | truncated   (relative to the key named in the extension)
+	Sig     string `json:"sig"`      // valid | other-certkey | other-signer | truncated   (relative to the key named in the extension) | genuine-transplanted (tls-history only)
 	SelfSig string `json:"self_sig"` // valid | invalid
 	Chain   string `json:"chain"`    // 1 | 2-genuine-other-after | 2-genuine-other-before | 0 | 1-genuine-other-replayed
 }
@@ -159,6 +159,15 @@ func (w *c01CertWorld) build(spec c01CertSpec) *c01Built {
 				sig = sig[:len(sig)-1]
 			}
 			x = c01Ext(pub, sig)
+			if spec.Sig == "genuine-transplanted" {
+				// the extension of the named peer's GENUINE certificate, byte for byte: its signature is valid -
+				// over the key of that certificate, which the endpoint does not hold (history cases only;
+				// authentic for nobody)
+				delete(b.authentic, named.ID)
+				if g, ok := c01GenuineExt(w.genuineO); ok && spec.ExtKey == "other" {
+					x = g
+				}
+			}
 		}
 		valid := c01Ext(w.E.PubBytes, c01SignCertKey(w.E, w.c1.Public()))
 		var exts, later []pkix.Extension
